@@ -13,6 +13,7 @@ from .. import arr as A
 from ..report import Finding, AnalysisError
 from ..shims import tree_map, pytree_roundtrip
 from .common import *
+from ..shims import Device
 
 PAIRS = ["vector", "scalar", "concat", "expand", "merge", "pmap", "images", "copy", "pytree", "chain"]
 
@@ -174,7 +175,7 @@ def worker(job):
             sh[0] = ndev * 2 if nl > 1 else ndev * 2
             bl[t] = block("m", t, sh, sp, D)
         m = build(bl)
-        devs = ["d%d" % i for i in range(ndev)]
+        devs = [Device(i) for i in range(ndev)]
         r = attempt(lambda: m.reshape_pmap(devs).merge_axes([0, 1]))
         multi_equal(r, bl, D, flags, "merge_axes(reshape_pmap(m))", problems)
         e = attempt(lambda: m.reshape_pmap(devs))
